@@ -890,18 +890,28 @@ impl StoryState {
         self.output_stream_dirty();
     }
 
-    pub fn pop_evaluation_stack(&mut self) -> Rc<dyn RTObject> {
-        self.evaluation_stack.pop().unwrap()
+    pub fn pop_evaluation_stack(&mut self) -> Result<Rc<dyn RTObject>, StoryError> {
+        self.evaluation_stack.pop().ok_or_else(|| {
+            StoryError::InvalidStoryState("Evaluation stack is empty: nothing to pop.".to_owned())
+        })
     }
 
     pub fn pop_evaluation_stack_multiple(
         &mut self,
         number_of_objects: usize,
-    ) -> Vec<Rc<dyn RTObject>> {
+    ) -> Result<Vec<Rc<dyn RTObject>>, StoryError> {
+        if number_of_objects > self.evaluation_stack.len() {
+            return Err(StoryError::InvalidStoryState(format!(
+                "Evaluation stack holds {} values but {} were expected.",
+                self.evaluation_stack.len(),
+                number_of_objects
+            )));
+        }
+
         let start = self.evaluation_stack.len() - number_of_objects;
         let obj: Vec<Rc<dyn RTObject>> = self.evaluation_stack.drain(start..).collect();
 
-        obj
+        Ok(obj)
     }
 
     pub fn set_diverted_pointer(&mut self, p: Pointer) {
@@ -1087,7 +1097,7 @@ impl StoryState {
         // for that)
         let mut returned_obj = None;
         while self.evaluation_stack.len() > original_evaluation_stack_height {
-            let popped_obj = self.pop_evaluation_stack();
+            let popped_obj = self.pop_evaluation_stack()?;
             if returned_obj.is_none() {
                 returned_obj = Some(popped_obj);
             }
